@@ -29,7 +29,7 @@ PROPS = {
              [("distr", 300, 4000)],
              {"d.bb": ["states", "main", "bal", "burned"], "d.setparams": "*"},
              exact_ops=["d.bb"]),
-    "C14": P(["C4E.Props.C14"], ["C4E.Props.C14"],
+    "C14": P(["C4E.Props.C14", "C4E.Props.C14b"], ["C4E.Props.C14"],
              [("distrfaults", 300, 5000)],
              {"d.bb": ["states", "main", "bal", "inv", "calls"], "d.setparams": "*"}),
     "C05": P(["C4E.Props.C05"], ["C4E.Props.C05"],
@@ -136,7 +136,7 @@ REQUIRED = {
  'C11':['last_occurrence_order_irrelevant','tie_nondet_sites'],
  'C12':['minter_roundtrip','minter_behaviour_preserved','distr_state_roundtrip','period_roundtrip','sig_roundtrip_fails','distr_roundtrip_after_block','genesis_valid_init'],
  'C13':['minter_authority_only','distr_full_stored_valid','distr_sub_stored_valid','distr_share_stored_valid','distr_burn_stored_valid','denom_frozen','minter_update_requires_current'],
- 'C14':['books_under_faults','failed_payout_keeps_state','payLoopF_conserves','made_up_exactly','delayed_sweep_bound','payoutOne_keeps_books','payoutLoop_keeps_books','truncateDecimal_split'],
+ 'C14':['books_under_faults','failed_payout_keeps_state','payLoopF_conserves','made_up_exactly','delayed_sweep_bound','payoutOne_keeps_books','payoutLoop_keeps_books','truncateDecimal_split','payoutOne_is_payLoopF_step'],
  'C15':['link_write_once','verify_iff','verify_reads_only','tamper_fails'],
  'C16':['splitOne_conserves','four_splits_succeed','migrate_v3_fieldwise','migrate_v2_locked','shift_keeps_amounts','minter_migration_same_schedule','minter_migration_valid','minter_migration_succeeds','legacy_zero_exp_not_migratable','distr_migration_same_shares','tie_upgrade_orchestration'],
  'C17':['split_lineage','send_lineage','chain_lineage','splitCoins_lineage','sendToNew_lineage','other_messages_keep_traces','summary_shape'],
